@@ -175,6 +175,9 @@ int Canon::canon(int t) {
     auto isAbsMask = [&](const Term &c) { return c.op == TT.OP_C && ((x.bytes == 4 && (int32_t)c.k == INT32_MAX) || (x.bytes == 8 && c.k == INT64_MAX)); };
     if (isAbsMask(TT.t[x.a[0]])) r = TT.mk(TT.OP_FABS, {x.a[1]}, 0, x.bytes); else if (isAbsMask(TT.t[x.a[1]])) r = TT.mk(TT.OP_FABS, {x.a[0]}, 0, x.bytes);
   }
+  else if (x.op == TT.OP_FADD && TT.t[x.a[0]].op == TT.OP_CF && TT.t[x.a[0]].k == INT64_MIN) r = x.a[1]; // x + (-0.0) == x for every x
+  else if (x.op == TT.OP_FADD && TT.t[x.a[1]].op == TT.OP_CF && TT.t[x.a[1]].k == INT64_MIN) r = x.a[0];
+  else if (x.op == TT.OP_FSUB && TT.t[x.a[1]].op == TT.OP_CF && TT.t[x.a[1]].k == 0) r = x.a[0]; // x - (+0.0) == x for every x
   else if (x.op == TT.OP_FSUB && TT.t[x.a[0]].op == TT.OP_CF && TT.t[x.a[0]].k == INT64_MIN) r = canon(TT.mk(TT.OP_FNEG, {x.a[1]}, 0, x.bytes));
   else if (x.op == TT.OP_FNEG && TT.t[x.a[0]].op == TT.OP_FNEG) r = TT.t[x.a[0]].a[0];
   else if (x.op == TT.OP_FNEG && TT.t[x.a[0]].op == TT.OP_CF) r = TT.cfp(-TT.cfval(x.a[0]), x.bytes);
@@ -228,7 +231,16 @@ int Canon::canon(int t) {
     auto atomT = [&](const std::string &pp, int u, int v, bool sym) { if (sym && v < u) std::swap(u, v); return TT.mk((isI ? "icmp." : "fcmp.") + pp, {u, v}, x.k, 1); };
     auto notT = [&](int u) { return TT.mk(TT.OP_NOT, {u}, 0, 1); };
     if (isI) {
-      if (p == "ne") r = atomT("ne", a0, a1, true); else if (p == "eq") r = notT(atomT("ne", a0, a1, true));
+      auto bitTest = [&](int u, int v) -> int { // ne(and(y, 2^k), 0)  ->  bit k of y
+        if (!(TT.t[v].op == TT.OP_C && TT.t[v].k == 0)) return -1; const Term ut = TT.t[u]; if (ut.op != TT.OP_AND || ut.a.size() != 2) return -1;
+        int y = -1; int64_t c = 0; if (TT.t[ut.a[0]].op == TT.OP_C) { c = TT.t[ut.a[0]].k; y = ut.a[1]; } else if (TT.t[ut.a[1]].op == TT.OP_C) { c = TT.t[ut.a[1]].k; y = ut.a[0]; } else return -1;
+        uint64_t uc = (uint64_t)c & (ut.bytes >= 8 ? ~0ULL : ((1ULL << (8 * ut.bytes)) - 1)); if (!uc || (uc & (uc - 1))) return -1; int k = __builtin_ctzll(uc);
+        while (TT.t[y].op == TT.OP_ZEXT && k < TT.t[y].k) y = TT.t[y].a[0];
+        if (TT.t[y].op == TT.OP_LSHR && TT.t[TT.t[y].a[1]].op == TT.OP_C) { k += (int)TT.t[TT.t[y].a[1]].k; y = TT.t[y].a[0]; while (TT.t[y].op == TT.OP_ZEXT && k < TT.t[y].k) y = TT.t[y].a[0]; }
+        return TT.mk("bit", {y}, k, 1); };
+      int bt = (p == "ne" || p == "eq") ? (bitTest(a0, a1) >= 0 ? bitTest(a0, a1) : bitTest(a1, a0)) : -1;
+      if (bt >= 0) r = p == "ne" ? bt : notT(bt);
+      else if (p == "ne") r = atomT("ne", a0, a1, true); else if (p == "eq") r = notT(atomT("ne", a0, a1, true));
       else if (p == "slt" || p == "sgt") { int u = p == "slt" ? a0 : a1, v = p == "slt" ? a1 : a0; // u < v
         if (TT.t[u].op == TT.OP_C && TT.t[v].op != TT.OP_C && TT.t[u].k < INT64_MAX) r = notT(atomT("slt", v, TT.cint(TT.t[u].k + 1, TT.t[u].bytes), false)); else r = atomT("slt", u, v, false); }
       else if (p == "sge" || p == "sle") { int u = p == "sge" ? a0 : a1, v = p == "sge" ? a1 : a0; // !(u < v)
@@ -245,6 +257,7 @@ int Canon::canon(int t) {
       else if (p == "ule") r = notT(atomT("olt", a1, a0, false)); else if (p == "uge") r = notT(atomT("olt", a0, a1, false));
     }
   }
+  else if (x.op == TT.OP_TRUNC1) { int y = x.a[0], k = 0; if (TT.t[y].op == TT.OP_LSHR && TT.t[TT.t[y].a[1]].op == TT.OP_C) { k = (int)TT.t[TT.t[y].a[1]].k; y = TT.t[y].a[0]; } while (TT.t[y].op == TT.OP_ZEXT && k < TT.t[y].k) y = TT.t[y].a[0]; if (TT.t[y].op == TT.OP_SYM || k > 0) r = TT.mk("bit", {y}, k, 1); }
   else if (x.op == TT.OP_ZEXT && x.k == 1 && x.bytes == 1) r = x.a[0];                       // i1 -> i8: same byte
   else if ((x.op == TT.OP_OR || x.op == TT.OP_XOR || x.op == TT.OP_ADD) && x.a.size() == 2 && TT.t[x.a[0]].op == TT.OP_C && TT.t[x.a[0]].k == 0) r = x.a[1];
   else if ((x.op == TT.OP_OR || x.op == TT.OP_XOR || x.op == TT.OP_ADD) && x.a.size() == 2 && TT.t[x.a[1]].op == TT.OP_C && TT.t[x.a[1]].k == 0) r = x.a[0];
@@ -278,6 +291,8 @@ uint64_t symBits(int nsi, int64_t cell, int point) {
   const SymNS &ns = TT.ns[nsi];
   uint64_t h = mix(mix(std::hash<std::string>()(ns.name)) ^ mix((uint64_t)cell * 1315423911u + (uint64_t)point * 2654435761u));
   if (ns.isbool) return h & 1;
+  if (point == 6 || point == 7) { // every symbol far below / far above any constant seed
+    double v = (point == 6 ? -1000.0 : 1000.0) - (double)(h % 13); if (ns.positive) v = std::fabs(v); if (ns.fp) return fpToBits(v, ns.esz); return (uint64_t)(int64_t)v & maskB(ns.esz); }
   if (ns.fp) {
     double v;
     switch (point) {
@@ -466,8 +481,9 @@ std::set<int> Comparer::symsOf(int t) {
   return s;
 }
 bool Comparer::refute(int a, int b, bool fp, int bytes, bool exactBits, std::string &point, std::string &va, std::string &vb, bool &evaluable) {
-  evaluable = false;
+  evaluable = false; bool wide = points > 6;
   for (int p = 0; p < points; p++) {
+    if (p >= 6 && !wide) break;
     if (exactBits || !fp) {
       std::unordered_map<int, uint64_t> m; uint64_t x, y;
       if (!evalBits(a, p, m, x) || !evalBits(b, p, m, y)) continue;
@@ -616,8 +632,9 @@ CmpResult Comparer::compare(int a, int b, const std::string &mode, bool fp, int 
   if (res.got.empty()) { res.got = TT.str(ca); res.expected = TT.str(cb); }
   // refutation at a point: evaluate both extracted terms on concrete inputs
   std::string pt, va, vb; bool evaluable = false;
-  bool exactBits = (mode == "EXACT");
-  if (refute(a, b, fp, bytes, exactBits, pt, va, vb, evaluable)) { res.v = V_VIOLATION; res.how = "refuted at a point"; res.point = pt + "  => got " + va + ", expected " + vb; nRefuted++; return res; }
+  bool exactBits = (mode == "EXACT"); int savedPoints = points; if (mode == "MINMAX") points = 8;
+  bool refuted = refute(a, b, fp, bytes, exactBits, pt, va, vb, evaluable); points = savedPoints;
+  if (refuted) { res.v = V_VIOLATION; res.how = "refuted at a point"; res.point = pt + "  => got " + va + ", expected " + vb; nRefuted++; return res; }
   if (structuralOnly && !evaluable) { res.v = V_VIOLATION; res.how = "atom-free polynomial normal forms differ"; nRefuted++; return res; }
   res.v = V_UNDECIDED; res.how = evaluable ? "normal forms differ but no tested point separates the terms" : "normal forms differ and the terms cannot be evaluated"; nUndecided++;
   return res;
